@@ -1,6 +1,6 @@
 (** resolve.go: Schema.Resolve and its helpers (check, resolveURIs, resolveRefs,
     resolveRef with the Loader and the cache of loaded documents).
-    Schemas are trees here; [checkStructure] on pointer graphs is in heap/Structure.v. *)
+    Schemas are trees here; [checkStructure] on pointer graphs is in heap/Clone.v ([check]). *)
 From Coq Require Import List NArith ZArith QArith Bool.
 From JS Require Import Str Lit Json Res GoValue Schema Basic Pointer Env Uri.
 Import ListNotations.
